@@ -6,6 +6,22 @@ from scipy.integrate import solve_ivp
 from harness import equilibria as E
 
 
+def psi_factor(cfg):
+    """file psi = psi_factor * (psi of the unsigned, unscaled analytic family): sign and scale given to the input arrays, times what the
+    options reverse_current / psi_divide_twopi do to them"""
+    o = cfg.get("options", {})
+    f = cfg.get("psi_sign", 1.0) * cfg.get("psi_scale", 1.0)
+    if o.get("reverse_current"):
+        f = -f
+    if o.get("psi_divide_twopi"):
+        f = f / (2.0 * np.pi)
+    return f
+
+
+def bt_sign(cfg):
+    return -1.0 if cfg.get("options", {}).get("reverse_Bt") else 1.0
+
+
 def analytic_psi_grad(cfg):
     """(psi, dpsi/dR, dpsi/dZ) as analytic functions for the tokamak families; None otherwise"""
     if cfg.get("family", "tokamak") != "tokamak":
@@ -13,7 +29,7 @@ def analytic_psi_grad(cfg):
     if cfg.get("options", {}).get("psi_interpolation_method", "spline") != "spline":
         return None      # the grid follows the contours of the chosen interpolant: use the equilibrium object's own psi (callers fall back)
     geom = cfg["geometry"]
-    sgn = cfg.get("psi_sign", 1.0) * cfg.get("psi_scale", 1.0)
+    sgn = psi_factor(cfg)
     mir = -1.0 if cfg.get("mirror") else 1.0
     r0, z0 = E.R0, E.Z0
     lobes = {"lsn": [(1, 0.3 - z0), (1, -0.3 - z0)], "usn": [(1, z0 + 0.3), (1, z0 - 0.3)],
